@@ -36,11 +36,15 @@ type c33cfg struct {
 	size     int64  // batch: size
 	limit    int64  // batch: limit
 	failPref int    // batch: failing pref (by batch number, -1 none)
+	errKind  string // "" plain error | "canceled" | "deadline": the failing job's own error wraps a context error
 }
 
 func (c c33cfg) id() string {
 	if c.kind == "batch" {
 		return fmt.Sprintf("batch|size=%d|limit=%d|fail=%d|failpref=%d", c.size, c.limit, c.fail, c.failPref)
+	}
+	if c.errKind != "" {
+		return fmt.Sprintf("%s|sem=%d|jobs=%d|fail=%d|fail2=%d|cancel=%s|err=%s", c.kind, c.sem, c.jobs, c.fail, c.fail2, c.cancel, c.errKind)
 	}
 	return fmt.Sprintf("%s|sem=%d|jobs=%d|fail=%d|fail2=%d|cancel=%s", c.kind, c.sem, c.jobs, c.fail, c.fail2, c.cancel)
 }
@@ -85,7 +89,17 @@ func c33buildMode(c c33cfg, native bool) (vsched.Scenario, *c33obs) {
 	if native {
 		o.mu = &sync.Mutex{}
 	}
-	jobErr := func(i int) error { return errors.Errorf("job-%d-failed", i) }
+	jobErr := func(i int) error {
+		// a job's own error may itself be (or wrap) a context error that does not come from the worker context,
+		// e.g. its own timeout: it is still the job's error and must cancel the rest and be returned
+		switch c.errKind {
+		case "canceled":
+			return errors.Wrapf(context.Canceled, "job-%d-failed", i)
+		case "deadline":
+			return errors.Wrapf(context.DeadlineExceeded, "job-%d-failed", i)
+		}
+		return errors.Errorf("job-%d-failed", i)
+	}
 	body := func(i int) error {
 		o.lock()
 		o.starts[i] = append(o.starts[i], o.tick())
@@ -340,6 +354,11 @@ func TestVerifC33(t *testing.T) {
 					}
 					for fail2 := fail + 1; fail >= 0 && fail2 < jobs; fail2++ {
 						cfgs = append(cfgs, c33cfg{kind: kind, sem: sem, jobs: jobs, fail: fail, fail2: fail2})
+					}
+					if fail >= 0 {
+						for _, ek := range []string{"canceled", "deadline"} {
+							cfgs = append(cfgs, c33cfg{kind: kind, sem: sem, jobs: jobs, fail: fail, fail2: -1, errKind: ek})
+						}
 					}
 				}
 			}
